@@ -156,6 +156,8 @@ def build_graph(rng, kind, flavour):
         # more metadata / node objects than the default mix
         if rng.random() < 0.25:
             op = ('add_node', gen.name(), gen.vt(), gen.meta())
+        if n == 12:
+            GH.warm_caches(g, rng, 0.25)
         GH.apply_op(g, op)
         ops.append(op)
     return g, ops, gen, (gm or {})
